@@ -17,6 +17,7 @@ import random
 import numpy as np
 
 from .. import core, encode, inputs, pool
+from . import rel_common as rc
 
 KIND = {"kcore_bu": "bu", "kcore_bd": "bd", "score_wu": "wu",
         "kcoreness_centrality_bu": "bu", "kcoreness_centrality_bd": "bd"}
@@ -39,14 +40,35 @@ def _fill(job, rec):
     return rec
 
 
+def arg_dtype(fn, dtype):
+    """what routine `fn` may be handed for a drawn dtype (rel_common.admissible): kcore_bu/_bd and
+    kcoreness_centrality_* are documented for binary networks (bool allowed), score_wu for weights;
+    every output is structural (the input restricted to a node set, sizes, coreness levels) ->
+    float32 allowed; none of them copies its argument to float before summing it -> no uint8"""
+    return rc.admissible(dtype, binary=fn != "score_wu", structural=True)
+
+
+def _bound(job, b2):
+    """the bound as the caller types it: k as int / float / numpy integer, s as float or - when
+    integral - as int (job['ktype'], drawn); the record keeps the doubled integer b2"""
+    kt = job.get("ktype", "int")
+    if job["fn"] == "score_wu":
+        return b2 // 2 if (kt != "float" and b2 % 2 == 0) else b2 / 2.0
+    return {"int": int, "float": float, "np": np.int64}[kt](b2 // 2)
+
+
 def exec_job(job):
     import bct
-    A = np.array(job["A"], dtype=float)
-    rec = _blank(job, A)
+    A0 = np.array(job["A"], dtype=float)
+    rec = _blank(job, A0)
     fn = getattr(bct, job["fn"])
+
+    def mk():       # a fresh argument array per call: same values, drawn dtype / memory layout
+        return rc.as_variant(A0, job.get("dtype", "float64"), job.get("layout", "C"))
+    mk()
     if job["fn"].startswith("kcoreness"):
         try:
-            coreness, kn = fn(A.copy())
+            coreness, kn = fn(mk())
         except Exception as e:
             rec["raised"] = encode.exc_name(e)
             return rec
@@ -59,10 +81,10 @@ def exec_job(job):
     try:
         outs, pouts = [], []
         for b2 in job["b2s"]:
-            bound = b2 / 2.0 if job["fn"] == "score_wu" else b2 // 2
-            outs.append(fn(A.copy(), bound))
+            bound = _bound(job, b2)
+            outs.append(fn(mk(), bound))
             if job["fn"] != "score_wu":
-                pouts.append(fn(A.copy(), bound, peel=True))
+                pouts.append(fn(mk(), bound, peel=True))
     except Exception as e:
         rec["raised"] = encode.exc_name(e)
         return rec
@@ -125,6 +147,34 @@ def tree_with_cliques(rng, n, und):
     return A
 
 
+def structured(rng, kind):
+    """(und?, matrix) on a structured support: caterpillars (long chains: as many peeling rounds as
+    the spine is long), rings of cliques (the k-core is exactly the cliques up to k = m-1, then
+    nothing), paths / cycles / stars / complete / complete bipartite graphs (core = all or
+    nothing at the boundary k = degree), equal / unequal components, isolated nodes"""
+    name, n, edges = rc.structured_support(rng, 5, 10)
+    und = kind != "bd"
+    if not und:
+        edges = rc.orient(rng, edges) if rng.random() < 0.7 else [e for (i, j) in edges for e in ((i, j), (j, i))]
+    w = None
+    if kind == "wu":
+        ws = rng.choice([[1, 2, 3, 4, 5], [1, 2], [2], [1], [3]])         # single value: all strengths tie
+        w = [rng.choice(ws) for _ in edges]
+    return name, inputs.mat_from_edges(n, edges, und=und, w=w)
+
+
+def job_of(rng, fn, src, A, b2s=None, p_plain=1.0):
+    """p_plain < 1: draw the argument dtype / layout and how the bound is typed"""
+    j = dict(fn=fn, src=src, A=A.tolist() if hasattr(A, "tolist") else A)
+    if b2s is not None:
+        j["b2s"] = b2s
+    if p_plain < 1.0:
+        fam = rc.DT_COUNT if fn == "score_wu" else rc.DT_BIN
+        dt, lay = rc.draw_variant(rng, fam, p_plain)
+        j.update(dtype=arg_dtype(fn, dt), layout=lay, ktype=rng.choice(["int", "int", "float", "np"]))
+    return j
+
+
 def build_jobs(ctx):
     rng = random.Random(ctx.seed)
     jobs = []
@@ -157,31 +207,41 @@ def build_jobs(ctx):
             for w in ws:
                 A = inputs.mat_from_edges(n, edges, und=True, w=list(w))
                 jobs.append(dict(fn="score_wu", src="model", A=A.tolist(), b2s=s_bounds_full(A)))
-    # ---- random larger graphs
+    # ---- a sample of the model inputs again as another argument dtype (bool/int32/int64/float32
+    #      for the binary routines, int32/int64/float32 for score_wu), memory layout, bound type
+    for j in inputs.sample(rng, jobs, 500 if ctx.quick else 5000):
+        jobs.append(job_of(rng, j["fn"], "model-variant", j["A"], j.get("b2s"), p_plain=0.0))
+    # ---- random larger graphs; routine, shape, density, dtype, layout, bound type independent draws
     nrand = 240 if ctx.quick else 3000
     for t in range(nrand):
         n = rng.randint(6, 10)
-        kind = ("bu", "bd", "wu")[t % 3]
+        kind = rng.choice(["bu", "bd", "wu"])
         und = kind != "bd"
-        if t % 2 == 0:
+        shape = rng.choice(["gnp", "gnp", "tree+cliques", "tree+cliques", "structured"])
+        src = "random"
+        if shape == "gnp":
             A = inputs.rand_graph(rng, n, rng.choice([0.15, 0.3, 0.5, 0.7]), und=und,
                                   wmax=5 if kind == "wu" else 1)
+        elif shape == "structured":
+            name, A = structured(rng, kind)
+            n, src = len(A), "struct-" + name
         else:
             A = tree_with_cliques(rng, n, und)
             if kind == "wu":
                 W = np.triu(np.vectorize(lambda x: rng.randint(1, 5))(A) * A, 1)
                 A = W + W.T
         if kind == "wu":
-            jobs.append(dict(fn="score_wu", src="random", A=A.tolist(),
-                             b2s=s_bounds_sparse(rng, A)))
+            jobs.append(job_of(rng, "score_wu", src, A, s_bounds_sparse(rng, A), p_plain=0.4))
         else:
-            jobs.append(dict(fn="kcore_" + kind, src="random", A=A.tolist(), b2s=k_bounds(n, kind)))
-            jobs.append(dict(fn="kcoreness_centrality_" + kind, src="random", A=A.tolist()))
+            jobs.append(job_of(rng, "kcore_" + kind, src, A, k_bounds(n, kind), p_plain=0.4))
+            jobs.append(job_of(rng, "kcoreness_centrality_" + kind, src, A, p_plain=0.4))
     return jobs
 
 
 def what(job, rec, clause):
-    return "n=%d A=%s" % (rec.get("n", -1), rec.get("A"))
+    return "n=%d dtype=%s layout=%s ktype=%s src=%s A=%s" % (
+        rec.get("n", -1), job.get("dtype", "float64"), job.get("layout", "C"), job.get("ktype", "int"),
+        job.get("src"), rec.get("A"))
 
 
 def run(ctx):
@@ -201,7 +261,8 @@ def run(ctx):
         raise core.MachineryError("%d of %d probe calls did not return within 6 s" % (hung, len(probe)))
     recs = [_fill(j, r) for j, r in zip(jobs, pool.run_jobs(__name__, jobs, limit=10.0))]
     verdicts = ctx.validate(*TRACE, recs, chunk=3000)
-    ctx.judge(jobs, recs, verdicts, what)
+    ctx.judge(jobs, rc.tag_failures(ctx, jobs, recs, verdicts), verdicts, what)
+    ctx.extra["argument_variants"] = rc.variant_counts(jobs)
     # non-trivial: distinct (fn, input) where for some bound > 0 the core is non-empty and
     # smaller than the set of non-isolated nodes (something was peeled, something stayed)
     seen = set()
@@ -217,7 +278,12 @@ def run(ctx):
     ctx.rule = ("every undirected graph on %s nodes x every k; every digraph on 3 nodes and %s on 4 "
                 "x every k up to 2(n-1)+1; every {1,2}-weighting of every support on 3..4 nodes "
                 "(sampled on 5) x every half-integer s up to past the largest strength; seeded "
-                "random graphs n in 6..10 (G(n,p), trees with cliques and isolated nodes). "
+                "random graphs n in 6..10 (G(n,p), trees with cliques and isolated nodes, structured "
+                "supports: caterpillars, rings of cliques, paths, cycles, stars, complete (bipartite), equal/"
+                "unequal components; single-value weight sets); a sample of the model inputs and most random "
+                "ones as another argument dtype (bool/int32/int64/float32 where the routine's domain allows), "
+                "memory layout (Fortran, transposed, window, strided) and bound type (int, float, numpy "
+                "integer), all drawn from the seeded RNG. "
                 "non-trivial = distinct (function, input) for which some bound > 0 leaves a core "
                 "that is neither empty nor all non-isolated nodes"
                 % (("3..5", "a sample of 1200") if ctx.quick else ("3..5 (sample of 6000 on 6)", "every one")))
